@@ -54,8 +54,11 @@ fn main() {
         "workers-scenario" => workers::cmd_scenario(&args),
         "workers-live" => workers::cmd_live(&args),
         "probe" => probe::cmd_probe(&args),
+        "probe-f4" => probe::cmd_probe_f4(&args),
+        "probe-f9" => probe::cmd_probe_f9(&args),
         "mtree-replay" => mtree::cmd_replay(&args),
         "mtree-scenario" => mtree::cmd_scenario(&args),
+        "claimleak" => mtree::cmd_claimleak(&args),
         "pdb-record" => record::cmd_record(&args),
         "pdb-record-mt" => record::cmd_record_mt(&args),
         other => {
